@@ -1,6 +1,7 @@
 import TxVerif.Props.C09
 import TxVerif.Props.C09Live
 import TxVerif.Tie.Skeleton
+import TxVerif.Props.C02Conc
 open TxVerif
 #print axioms lockInv_step
 #print axioms lockInv_reach
@@ -24,3 +25,6 @@ open TxVerif
 #print axioms Tie.tryCommit_lock_ops
 #print axioms Tie.withInitTx_balanced
 #print axioms Tie.fileClose_ops
+#print axioms conc_invariant
+#print axioms econc_no_deadlock
+#print axioms econc_terminates
